@@ -12,7 +12,7 @@ func init() {
 	register(&propDef{
 		ID: "C16",
 		Info: propInfo{
-			Technique: "path analysis of the submit family + status-writer inventory + interference-mode CAS analysis",
+			Technique:   "path analysis of the submit family + status-writer inventory + interference-mode CAS analysis",
 			Explanation: "(R16.1) in every Add/AddAll that hands a job handle to the user, the Queued status is stored before the Enqueue that makes the job visible to the dispatcher (before that the creator holds the only reference), and never after it; (R16.2) writer inventory: the job status is written with a plain store only at construction/decoding, as Queued in the submit paths and as Finished in the completion callback after the worker function; every other transition is a compare-and-swap; (R16.3) the compare-and-swap transitions only move forward: to Processing from a non-Closed state, to Closed from Created/Queued/Finished (R10.1), so no late store can move a handle backwards once Wait has returned.",
 			NotDecided:  []string{"what a sampler reads between two atomic stores (nothing to decide: stores are atomic and ordered along one owner pipeline by R05.1)"},
 			Assumptions: []string{"sync/atomic semantics"},
@@ -22,7 +22,7 @@ func init() {
 	register(&propDef{
 		ID: "C17",
 		Info: propInfo{
-			Technique: "lockset over atomic counter reads + path analysis of submit/completion/wrappers + who-may-call",
+			Technique:   "lockset over atomic counter reads + path analysis of submit/completion/wrappers + who-may-call",
 			Explanation: "(R17.1) a function that combines two separately loaded counters of one struct arithmetically holds the lock under which both are written (Queue.Len was the counter-example, fixed); (R17.2) Submitted is counted exactly once on the accepting path of every worker-bound submit function and never on a rejecting one, and once per 'enqueued' announcement; (R17.3) every wrapper counts exactly one of Successful/Failed and the completion callback exactly one Completed after the worker function; (R17.4) every queue is registered exactly once (R15.1), Manager.Len sums Len() over all items under the read lock, and a queue's NumPending is its own Len(); (R17.5) in-flight inc/dec pairing (R02.1/R02.2): never negative, never above the limit; (R17.6) Purge resets both FIFO counters together under the write lock.",
 			NotDecided:  []string{"transient over/under-counts between atomics of different objects", "Metrics.Reset racing updates"},
 			Assumptions: []string{"lock identity per (type, field)"},
@@ -32,7 +32,7 @@ func init() {
 	register(&propDef{
 		ID: "C18",
 		Info: propInfo{
-			Technique: "goroutine inventory (every go statement classified with its blocking operations and releasing events) + lifecycle table + path rules + table extraction",
+			Technique:   "goroutine inventory (every go statement classified with its blocking operations and releasing events) + lifecycle table + path rules + table extraction",
 			Explanation: "(R18.1) every go statement of the library is classified: what its body blocks on and which event releases it; a loop that receives from a time.Ticker's channel must have another exit (Ticker.Stop does not close C) whose channel is closed by the function Stop calls; a goroutine ranging over the signal channel is released by closeChannels; a pool goroutine by the stop payload; the context listener by the cancel function — each releasing event occurs in every Stop outcome of the lifecycle table; an unclassifiable go statement fails the run; (R18.2) Stop from Running/Paused performs wait, stopTickers, closeChannels, stopAndRemoveAllWorkers, Stopped (and cancel when a context exists), Restart removes the idle nodes before starting again; (R18.3) pool nodes are created only by the hand-off on the empty-idle-list branch and once in start; (R18.4) a slice of a NodeSlice() snapshot by a non-constant bound is preceded by a comparison of that bound with the length of the same snapshot; (R18.5) numMinIdleWorkers evaluates to max(limit*ratio/100, 1) on sample points, freePoolNode keeps the node when fewer than the minimum are idle, TunePool's shrink loop continues only while strictly more than the minimum are idle and takes nodes only by PopBack.",
 			NotDecided:  []string{"timing of expiry", "peak goroutines during a shrink under load", "the numeric ratio for all inputs (sample points only)"},
 			Assumptions: []string{"time.Ticker.Stop does not close C (documented)"},
@@ -269,14 +269,30 @@ func (c *Ctx) rulePendingSums(rule string) {
 		good := false
 		ast.Inspect(f.Body, func(n ast.Node) bool {
 			rs, ok := n.(*ast.RangeStmt)
-			if !ok || selField(info, rs.X) != mgr+".items" || rs.Value == nil {
+			if !ok || selField(info, rs.X) != mgr+".items" {
 				return true
 			}
-			item := rootIdent(info, rs.Value)
+			var item, key types.Object
+			if rs.Value != nil {
+				item = rootIdent(info, rs.Value)
+			}
+			if rs.Key != nil {
+				key = rootIdent(info, rs.Key)
+			}
+			isElem := func(e ast.Expr) bool {
+				e = ast.Unparen(e)
+				if id, ok := e.(*ast.Ident); ok {
+					return item != nil && info.ObjectOf(id) == item
+				}
+				if ix, ok := e.(*ast.IndexExpr); ok {
+					return key != nil && selField(info, ix.X) == mgr+".items" && rootIdent(info, ix.Index) == key
+				}
+				return false
+			}
 			for _, s := range rs.Body.List {
 				if as, ok := s.(*ast.AssignStmt); ok && as.Tok == token.ADD_ASSIGN && len(as.Rhs) == 1 {
 					if call, ok := ast.Unparen(as.Rhs[0]).(*ast.CallExpr); ok {
-						if ce := resolveCallee(info, call); ce.Fn != nil && ce.Fn.Name() == "Len" && rootIdent(info, ce.Recv) == item {
+						if ce := resolveCallee(info, call); ce.Fn != nil && ce.Fn.Name() == "Len" && ce.Recv != nil && isElem(ce.Recv) {
 							// the accumulator is what is returned
 							acc := rootIdent(info, as.Lhs[0])
 							ast.Inspect(f.Body, func(m ast.Node) bool {
@@ -307,13 +323,26 @@ func (c *Ctx) rulePendingSums(rule string) {
 	}
 	if f := c.P.FuncByKey("externalBaseQueue.NumPending"); f != nil {
 		good := false
-		if len(f.Body.List) == 1 {
-			if ret, ok := f.Body.List[0].(*ast.ReturnStmt); ok && len(ret.Results) == 1 {
-				if call, ok := ast.Unparen(ret.Results[0]).(*ast.CallExpr); ok && resolveCallee(f.Info(), call).Key == kLenI && c.isReceiverField(f, call.Fun) {
-					good = true
+		isOwnLen := func(e ast.Expr) bool {
+			call, ok := ast.Unparen(e).(*ast.CallExpr)
+			return ok && resolveCallee(f.Info(), call).Key == kLenI && c.isReceiverField(f, call.Fun)
+		}
+		ast.Inspect(f.Body, func(n ast.Node) bool {
+			ret, ok := n.(*ast.ReturnStmt)
+			if !ok || len(ret.Results) != 1 {
+				return true
+			}
+			if isOwnLen(ret.Results[0]) {
+				good = true
+			} else if o := rootIdent(f.Info(), ret.Results[0]); o != nil {
+				if all, cnt := assignedOnlyFrom(f, o, func(rhs ast.Expr, idx, n int) bool { return isOwnLen(rhs) }); all && cnt > 0 {
+					if _, isId := ast.Unparen(ret.Results[0]).(*ast.Ident); isId {
+						good = true
+					}
 				}
 			}
-		}
+			return true
+		})
 		c.Rep.check(good, rule, f.Short(), "NumPending is not the queue's own Len()", c.P.pos(f.Body), "returns the bound queue's Len()", "a queue's NumPending must be the Len() of the queue it wraps")
 	}
 }
